@@ -338,10 +338,23 @@ def handoff_replay(model, obligation):
         from contracts import qhistory
         n, appl, fail, samples = qhistory.search(4, checks=("c17",), budget=40000, want="c17")
         if fail:
-            ops = [o[0] for o in fail["history"]]
-            cls = "finished-between-handoff-and-resume" if ("kill" in ops or "clock" in ops) and "pull" in ops else "other"
-            return True, fail, cls
+            return True, fail, classify17(fail)
         return False, {"histories_searched": n}, None
+
+
+def classify17(fail):
+    """known finding = a *blocked* puller receives a job that was killed / timed out between
+    the hand-off and its resume; everything else is a different violation"""
+    ops = [o[0] for o in fail["history"]]
+    d = fail.get("detail", "")
+    if "already finished" in d and "pull" in ops and ("kill" in ops or "clock" in ops):
+        # the pull must have blocked: it precedes the add of the job it received
+        first_pull = ops.index("pull")
+        if "add" in ops[first_pull:]:
+            return "finished-between-handoff-and-resume"
+    if "lower (priority" in d:
+        return "order"
+    return "other:" + d.split(":")[-1][:40]
 
 
 def replay_history(model, obligation):
@@ -355,16 +368,17 @@ def replay_history(model, obligation):
 def bounded(chk):
     from contracts import qhistory
     depth = 3 if chk.tier == "quick" else 4
+    known_seen = []
     n, appl, fail, samples = qhistory.search(depth, checks=("c17",), budget=10**7, seed=chk.seed,
-                                             random_len=8, random_n=2000 if chk.tier == "quick" else 20000, want="c17")
+                                             random_len=8, random_n=2000 if chk.tier == "quick" else 20000, want="c17",
+                                             skip=lambda f: classify17(f) == "finished-between-handoff-and-resume", skipped=known_seen)
     fails = []
-    if fail:
-        ops = [o[0] for o in fail["history"]]
-        cls = "finished-between-handoff-and-resume" if ("kill" in ops or "clock" in ops) and "pull" in ops else "other"
-        fails = [{"detail": fail["detail"], "witness": fail, "class": cls}]
+    for f in known_seen[:1] + ([fail] if fail else []):
+        fails.append({"detail": f["detail"], "witness": f, "class": classify17(f)})
     chk.bounded_result("histories_on_real_gevent_objects", n, appl, True,
-                       f"all histories of <= {depth} operations (17 ops, 2 channels, 2 workers) + seeded random ones; "
-                       f"eligibility / not-finished-at-receipt / finish_event <=> done observed", fails, samples)
+                       f"all histories of <= {depth} operations (17 ops, 2 channels, 2 workers) + a targeted order family (3-4 adds with priorities 0..2, "
+                       f"optional kill, pulls) + seeded random ones; eligibility / not-finished-at-receipt / priority-FIFO order / finish_event <=> done observed",
+                       fails, samples)
 
 
 def run(chk):
